@@ -53,6 +53,11 @@ func (rt *Transfer) RecvFiles(fileList []*File) error {
 }
 
 func (rt *Transfer) recvFile1(f *File) error {
+	if rt.listOnly() {
+		// Nothing was requested (there is no destination to receive into):
+		// a sender that transmits file data anyway violates the protocol.
+		return fmt.Errorf("protocol error: sender transmitted %s, but only a listing was requested", f.Name)
+	}
 	if rt.Opts.DryRun {
 		if !rt.Opts.Server {
 			fmt.Fprintln(rt.Env.Stdout, f.Name)
